@@ -18,6 +18,7 @@
 -/
 import Golib.Queue.Thms
 import Golib.Queue.Conc
+import Golib.Queue.Fair
 
 namespace C11
 open Queue
@@ -181,6 +182,90 @@ theorem blocked_get_returns (q0 : Q) (sched : List (Conc.Cond.Act Op)) (s : Conc
       s'.log = .ret t .get (.val x, [.delivered x]) :: .lin t .get (.val x, [.delivered x]) :: s.log ∧
       s'.ph t = .idle :=
   Queue.blocked_get_returns q0 sched s h t x rest hp hfree hi
+
+/-! ### progress under explicit fairness — infinite executions, any number of producers and
+    consumers, an adversarial scheduler that is only (weakly / strongly) fair to thread `t`
+
+  `IsExec st acts`: an infinite execution of the monitor machine; `WF a`: an action that stays enabled
+  forever from some point on is eventually taken; `SF a`: an action that is enabled again and again
+  is eventually taken. -/
+
+open Conc.Cond in
+/-- **blocked_get_returns under weak fairness.**  Thread `t` is in a `get` (about to lock, or woken
+    from the wait set); as long as it has not got the lock, the lock is free and the queue is
+    non-empty whenever one looks.  With weak fairness of t's own four actions it returns an element. -/
+theorem fair_blocked_get_returns {st : Nat → St Q Op CRet} {acts : Nat → Act Op}
+    (hE : IsExec cstep qbcast st acts) (q0 : Q) (h0 : Reach q0 st) (t : Nat)
+    (hwa : WF cstep qbcast st acts (.acq t)) (hwb : WF cstep qbcast st acts (.body t))
+    (hwr : WF cstep qbcast st acts (.rel t)) (hwt : WF cstep qbcast st acts (.ret t))
+    (i : Nat) (hp : (st i).ph t = .invoked .get ∨ (st i).ph t = .woken .get)
+    (hG : ∀ j, i ≤ j → ((st j).ph t = .invoked .get ∨ (st j).ph t = .woken .get) →
+      (st j).holder = none ∧ (st j).sh.items ≠ []) :
+    ∃ j, i < j ∧ ∃ x l, (st j).log = .ret t .get (.val x, [.delivered x]) :: l ∧
+      (st j).ph t = .idle :=
+  Queue.fair_blocked_get_returns hE q0 h0 t hwa hwb hwr hwt i hp hG
+
+open Conc.Cond in
+/-- **… with a contended lock (strong fairness of the acquisition).**  Other producers and consumers
+    may take the lock in between; it suffices that the lock is free again and again and that the queue
+    is non-empty whenever `t` wants the lock and finds it free.  The element returned is the head of
+    the queue at the moment `t` got the lock. -/
+theorem fair_blocked_get_returns_contended {st : Nat → St Q Op CRet} {acts : Nat → Act Op}
+    (hE : IsExec cstep qbcast st acts) (q0 : Q) (h0 : Reach q0 st) (t : Nat)
+    (hsa : SF cstep qbcast st acts (.acq t)) (hwb : WF cstep qbcast st acts (.body t))
+    (hwr : WF cstep qbcast st acts (.rel t)) (hwt : WF cstep qbcast st acts (.ret t))
+    (i : Nat) (hp : (st i).ph t = .invoked .get ∨ (st i).ph t = .woken .get)
+    (hfree : ∀ j, i ≤ j → ((st j).ph t = .invoked .get ∨ (st j).ph t = .woken .get) →
+      ∃ k, j ≤ k ∧ (st k).holder = none)
+    (hG : ∀ j, i ≤ j → ((st j).ph t = .invoked .get ∨ (st j).ph t = .woken .get) →
+      (st j).holder = none → (st j).sh.items ≠ []) :
+    ∃ j, i < j ∧ ∃ x l, (st j).log = .ret t .get (.val x, [.delivered x]) :: l ∧
+      (st j).ph t = .idle ∧
+      ∃ a k rest, i ≤ a ∧ a < k ∧ k < j ∧ acts a = .acq t ∧ acts k = .body t ∧
+        (st k).sh = (st a).sh ∧ (st a).sh.items = x :: rest ∧
+        (st (k + 1)).sh = { (st a).sh with items := rest } :=
+  Queue.sfair_blocked_get_returns hE q0 h0 t hsa hwb hwr hwt i hp hfree hG
+
+open Conc.Cond in
+/-- **no lost wake-up along an execution.**  A consumer that is in the wait set at `i` has been moved
+    out of it (is `woken`) at the latest at the first moment the queue is non-empty — and it was a
+    `get` waiting on an empty queue. -/
+theorem waiter_leaves_wait_set {st : Nat → St Q Op CRet} {acts : Nat → Act Op}
+    (hE : IsExec cstep qbcast st acts) (q0 : Q) (h0 : Reach q0 st) (t : Nat) (op : Op)
+    (i k : Nat) (hik : i ≤ k) (hw : (st i).ph t = .waiting op) (hq : (st k).sh.items ≠ []) :
+    op = .get ∧ (st i).sh.items = [] ∧
+    ∃ j, i < j ∧ j ≤ k ∧ (st j).ph t = .woken op ∧
+      ∀ m, i ≤ m → m < j → (st m).ph t = .waiting op :=
+  Queue.fair_waiter_leaves_wait_set hE q0 h0 t op i k hik hw hq
+
+open Conc.Cond in
+/-- waiter + contention: a consumer blocked before any producer arrived returns an element once the
+    queue becomes non-empty, under the hypotheses of `fair_blocked_get_returns_contended` -/
+theorem fair_waiting_get_returns {st : Nat → St Q Op CRet} {acts : Nat → Act Op}
+    (hE : IsExec cstep qbcast st acts) (q0 : Q) (h0 : Reach q0 st) (t : Nat)
+    (hsa : SF cstep qbcast st acts (.acq t)) (hwb : WF cstep qbcast st acts (.body t))
+    (hwr : WF cstep qbcast st acts (.rel t)) (hwt : WF cstep qbcast st acts (.ret t))
+    (i k : Nat) (hik : i ≤ k) (hw : (st i).ph t = .waiting .get) (hq : (st k).sh.items ≠ [])
+    (hfree : ∀ j, i ≤ j → ((st j).ph t = .invoked .get ∨ (st j).ph t = .woken .get) →
+      ∃ k, j ≤ k ∧ (st k).holder = none)
+    (hG : ∀ j, i ≤ j → ((st j).ph t = .invoked .get ∨ (st j).ph t = .woken .get) →
+      (st j).holder = none → (st j).sh.items ≠ []) :
+    ∃ j, i < j ∧ ∃ x l, (st j).log = .ret t .get (.val x, [.delivered x]) :: l ∧
+      (st j).ph t = .idle :=
+  Queue.sfair_waiting_get_returns hE q0 h0 t hsa hwb hwr hwt i k hik hw hq hfree hG
+
+open Conc.Cond in
+/-- the fairness hypotheses are satisfiable (an explicit infinite execution: a producer puts, the
+    consumer gets, forever) -/
+theorem fairness_hypotheses_satisfiable :
+    ∃ (st : Nat → St Q Op CRet) (acts : Nat → Act Op),
+      IsExec cstep qbcast st acts ∧ Reach demoQ st ∧
+      WF cstep qbcast st acts (.acq 0) ∧ WF cstep qbcast st acts (.body 0) ∧
+      WF cstep qbcast st acts (.rel 0) ∧ WF cstep qbcast st acts (.ret 0) ∧
+      (st 6).ph 0 = .invoked .get ∧
+      ∀ j, ((st j).ph 0 = .invoked .get ∨ (st j).ph 0 = .woken .get) →
+        (st j).holder = none ∧ (st j).sh.items ≠ [] :=
+  Queue.fair_hyps_satisfiable
 
 /-- what goes wrong without the broadcast: a consumer waits although the queue holds an element -/
 theorem finding_lost_wakeup_without_broadcast : ¬ Conc.Cond.NoEnable cstep (fun _ => false) :=
